@@ -17,7 +17,8 @@ RULE = ("cases are operations inside random histories over a forest of up to ~20
         "planted junk, expand of trees with resolvable references, delete_node_instance with and without children. For each the "
         "registry before/after is compared with the expected delta computed from observed reachability (prune, expand, replace) or "
         "from the operation's definition (create, copy, import, delete). distinct = distinct (history number, step); non-trivial = "
-        "operations that create or discard at least one node")
+        "operations that create or discard at least one node"
+        ". Also: wide trees, ids in every spelling other tools write, a document closed and reopened from its saved text, a node borrowed by another tree and given back before an ancestor is replaced, references with siblings, 250-400 thousand simultaneously live nodes")
 ASSUMPTIONS = [
     "the generator never reuses an id deliberately and only deletes ids whose subtree is fully registered",
     "'discarded' for prune/expand/replace-with-deletion = nodes reachable from the operated root before but not after",
